@@ -309,3 +309,57 @@ func VF_List_Readable() {
 	vf.Assert(sameListView(x.l, y.l), "C01 replicas keep agreeing as the history continues")
 	vf.Assert(listInv(x.l.snapshot()) && listInv(y.l.snapshot()), "L3 invariant")
 }
+
+// VF_Map_Three (C01, C02, C05): three replicas each issue one operation on the
+// same key at the same moment (put or remove, clocks and client ids symbolic:
+// every order of the three timestamps), and each receives the other two in
+// either order, through the datatype's real remote path
+// (ReceiveRemoteModelOperations -> ExecuteRemote).  All three end equal, and the
+// key holds the value of the greatest-timestamp operation, or nothing if that
+// was a remove.  Two replicas cannot show what a second remove does to the
+// tombstone a first one left.
+func VF_Map_Three() {
+	x, y, z := vfNewMapPeer("x"), vfNewMapPeer("y"), vfNewMapPeer("z")
+	vf.Assume(vf.All(x.m.GetCUID() != y.m.GetCUID(), x.m.GetCUID() != z.m.GetCUID(), y.m.GetCUID() != z.m.GetCUID()))
+	_, e := x.m.Put("a", "base")
+	vf.Assert(e == nil, "base history succeeds")
+	base := x.flush()
+	y.receive(base)
+	z.receive(base)
+	peers := []*mapPeer{x, y, z}
+	kinds := make([]int, 3)
+	var ops [3][]*model.Operation
+	for i, p := range peers {
+		kinds[i] = vf.Choice("kind", 2)
+		if kinds[i] == 0 {
+			_, err := p.m.Put("a", "v"+string(rune('0'+i)))
+			vf.Assert(err == nil, "C03 valid put succeeds")
+		} else {
+			_, err := p.m.Remove("a")
+			vf.Assert(err == nil, "C03 valid remove succeeds")
+		}
+		ops[i] = p.flush()
+	}
+	for i, p := range peers {
+		j, k := (i+1)%3, (i+2)%3
+		if vf.Choice("delivery-order", 2) == 1 {
+			j, k = k, j
+		}
+		p.receive(ops[j])
+		p.receive(ops[k])
+	}
+	vf.Reach("delivered")
+	vf.Assert(sameMapView(x.m, y.m) && sameMapView(x.m, z.m), "C01 three replicas with the same operations expose the same map")
+	// the winner: the operation with the greatest timestamp
+	win := 0
+	for i := 1; i < 3; i++ {
+		if ops[i][0].ID.Compare(ops[win][0].ID) > 0 {
+			win = i
+		}
+	}
+	var want interface{}
+	if kinds[win] == 0 {
+		want = "v" + string(rune('0'+win))
+	}
+	vf.Assert(x.m.Get("a") == want, "C02 the key holds what the greatest-timestamp operation wrote (nothing if it removed)")
+}
